@@ -44,6 +44,7 @@ type PathResult struct {
 	Covers     []string
 	Asserts    int
 	Fallbacks  int
+	OverflowUnknown int
 	Steps      int
 }
 
@@ -55,6 +56,7 @@ type Summary struct {
 	Unknowns     int            `json:"unknowns"`
 	Asserts      int            `json:"asserts_checked"`
 	Fallbacks    int            `json:"fallback_solver_queries"`
+	OverflowUnknown int         `json:"sql_overflow_checks_undecided"`
 	SolverTimeS  float64        `json:"solver_time_s"`
 	WallS        float64        `json:"wall_s"`
 	Violations   []Violation    `json:"violations"`
@@ -264,6 +266,7 @@ func (ex *Explorer) record(r *PathResult) {
 	ex.sum.Unknowns += r.Unknowns
 	ex.sum.Asserts += r.Asserts
 	ex.sum.Fallbacks += r.Fallbacks
+	ex.sum.OverflowUnknown += r.OverflowUnknown
 	for _, c := range r.Covers {
 		ex.sum.Covers[c]++
 	}
